@@ -226,6 +226,18 @@ class SizeEval:
         base = self.expr_ast(node.value)
         bc = canon(base, self.ctx)
         if node.attr == "nbytes":
+            # `<arr>.nbytes == width * len(<arr>)` only for an array of the codec's element width: when the constructor decides what
+            # self.<attr> holds, every arm of that decision must coerce to (or test for) a dtype; an arm that keeps the caller's
+            # array as it is leaves the width open and the size stays an opaque atom (which then cannot equal the bytes written)
+            if is_self(base) and isinstance(base, ast.Attribute):
+                summ = facts.init_summary(self.sc.prog, self.cls)
+                v = summ.attrs.get(base.attr)
+                if v is not None:
+                    for conds, leaf in facts.split_ifexp(v):
+                        coerced = isinstance(leaf, ast.Call) and (any(k.arg == "dtype" for k in leaf.keywords) or (isinstance(leaf.func, ast.Attribute) and leaf.func.attr == "astype"))
+                        tested = any(pol and isinstance(t, (ast.Compare, ast.BoolOp)) and ".dtype" in norm(t) for t, pol in facts.flat_facts(conds))
+                        if not coerced and not tested and any(isinstance(x, ast.Name) and x.id in summ.params for x in ast.walk(leaf)):
+                            return Poly.atom(bc + ".nbytes")
             for b, per in self.sc.nbytes_equiv:
                 if b == bc:
                     self.sc.un.assume(f"{self.cls.name}: `{bc}.nbytes == {per}*len({bc})` (cells have the element width of the codec they are written with)")
@@ -314,6 +326,12 @@ class SizeEval:
                         if isinstance(e, ast.Name):
                             self.env[e.id] = v.elts[i] if isinstance(v, ast.Tuple) and len(v.elts) == len(t.elts) else ast.Subscript(value=v, slice=C(i), ctx=ast.Load())
                     continue
+                if isinstance(t, ast.Attribute) and is_self(t) or (isinstance(t, ast.Subscript) and is_self(t.value)):
+                    from .report import DefiniteViolation
+                    raise DefiniteViolation("no-stale-derived-state", self.f.module.path.name, self.f.qualname, st,
+                                            f"the size computation stores into the object (`{norm(t)}`): a size kept in a mutable block goes stale when its items are edited in place "
+                                            "and then no longer equals the bytes written",
+                                            construct=f"{self.f.qualname} memoises in self", props=("C02", "C03", "C09"))
                 self.fail(st, "assignment target")
             if isinstance(st, ast.AugAssign) and isinstance(st.target, ast.Name) and isinstance(st.op, (ast.Add, ast.Sub)):
                 cur = self.env.get(st.target.id)
